@@ -267,7 +267,17 @@ fn observe_case(c: &Case) -> Obs {
     match family(imp) {
         "baseband" => {
             let p = BaseBandModulationParams::new(SFS[c.sf], BWS[c.bw], CRS[c.cr]);
-            Obs { rejected: None, decision: Some(p.ldro as u8), programmed: None, programmed_count: 0 }
+            // the decision the calculator *uses*: which setting of the DE term reproduces the time on air
+            // it reports for a 60-byte explicit-header frame (C16 judges the value itself)
+            let got = p.time_on_air_us(Some(8), true, 60) as u128;
+            let (sf, bw, crd) = (SF_NUM[c.sf] as u32, BWS[c.bw].hz(), 5 + c.cr as u32);
+            let with = |de: bool| verif_core::oracle::airtime::time_on_air_us(sf, bw, crd, de, Some(8), true, 60);
+            let used = match (got == with(false), got == with(true)) {
+                (true, false) => Some(0u8),
+                (false, true) => Some(1u8),
+                _ => None,
+            };
+            Obs { rejected: None, decision: Some(p.ldro as u8), programmed: used, programmed_count: 0 }
         }
         "sx126x" => {
             let chip = rig::new126();
@@ -360,7 +370,13 @@ fn judge(c: &Case, o: &Obs, kf: &KnownFindings) -> Verdict {
     }
     let fam = family(IMPLS[c.imp]);
     let pair = format!("SF{} @ {} Hz", SF_NUM[c.sf], BW_ROUNDED_HZ[c.bw]);
-    if fam != "baseband" {
+    if fam == "baseband" {
+        if let (Some(d), Some(p)) = (o.decision, o.programmed) {
+            if (d != 0) != (p != 0) {
+                return Verdict::Fail(Failure::new("ldro-programmed", c.json(), format!("{pair}: the airtime calculator reports low_data_rate_optimize={d} but computes the time on air as if it were {p}")).with_fp("ldro-programmed-differs/baseband"));
+            }
+        }
+    } else {
         let Some(p) = o.programmed else {
             return Verdict::Fail(
                 Failure::new("ldro-programmed", c.json(), format!("{pair}: accepted, but the register/command carrying LowDataRateOptimize was never written")).with_fp(format!("ldro-not-programmed/{fam}")),
